@@ -249,6 +249,8 @@ CHECKS = {
              "checks": {"quick": 2500, "thorough": 25000}, "shards": {"quick": 4, "thorough": 16}},
             {"name": "intraproxy", "pkg": "proxy", "run": "^TestVF_C08_IntraProxy$",
              "checks": {"quick": 600, "thorough": 6000}, "shards": {"quick": 2, "thorough": 8}},
+            {"name": "intraproxyrecv", "pkg": "proxy", "run": "^TestVF_C08_IntraProxyReceiver$",
+             "checks": {"quick": 400, "thorough": 4000}, "shards": {"quick": 4, "thorough": 16}},
         ],
     },
     "C09": {
@@ -256,7 +258,7 @@ CHECKS = {
         "technique": "stateful property-based testing with rapid over delivery schedules of real announcements + bounded exhaustive order enumeration; convergence predicate at quiescence; truth-table oracle for routing",
         "level": "exploration",
         "assumptions": [
-            "instances know each other (full state exchange first): the code announces only to peers it has merged state from",
+            "70% of the histories start with a full state exchange between all instances (the code announces only to peers it has merged state from); in the others some directed pairs have not exchanged state yet, and an owner other than the newest claimant is then accepted only if the newest claim was withdrawn before anybody heard of it",
             "real memberlist gossip/sockets between instances and ReconcilePeerStreams' dialling are replaced by direct delivery to the real delegates; the microsecond window between a registration's Created stamp and its announcement's Timestamp is not explored",
             "a node that left does not come back within a history",
             "ownership is asserted as: at most one owner; the owner, if any, is the newest claimant; the newest claimant owns the shard while its stream is open",
